@@ -364,7 +364,13 @@ class Logic:
             prog._accessors_registered = True
 
     # --- atoms
+    _CHAR0 = _re.compile(r"\((.+)\[0\] == '([^'\\]|\\[^x0]|\\x[0-9a-f]*[1-9a-f][0-9a-f]*)'\)")
+
     def atom(self, key):
+        # s[0] == 'c' for a character other than NUL: the string is not empty (s[s.size()] is '\0')
+        m = self._CHAR0.fullmatch(key) if isinstance(key, str) and key.endswith("')") else None
+        if m and "[0]" not in m.group(1):
+            self._add_axiom(Or(Not(("a", key)), Not(("a", "%s.empty()" % m.group(1)))), "s[0] == '%s' |- !s.empty()" % m.group(2))
         return ("a", key)
 
     def _cmp(self, op, l, r, env, depth):
